@@ -262,21 +262,6 @@ func drawCase(r *rng.R, small bool) (wopts, *recgen.Cfg, genParams) {
 	return o, cfg, p
 }
 
-// avoidDictReencode: a dictionary struct that contains a multimap does not survive being encoded
-// in full a second time (known defect dict-struct-reencode-multimap / C01 frozen-reencode-marks):
-// for roots that reach such a struct the writer options never reset dictionaries.
-func avoidDictReencode(root *rootSpec, o *wopts, cfg *recgen.Cfg) {
-	hit := recgen.TypeHas(root.ty, func(t *recgen.Type, f *recgen.Field) bool {
-		return t.Kind == recgen.KStruct && t.Def.Dict != "" && recgen.TypeHas(t, func(u *recgen.Type, _ *recgen.Field) bool { return u.Kind == recgen.KMultimap })
-	})
-	if hit && (o.dictSize != 0 || o.flags&pkg.RestartDictionaries != 0) {
-		o.dictSize = 0
-		o.flags &^= pkg.RestartDictionaries
-		cfg.DictResets = false
-		stats["opts-dict-resets-avoided"]++
-	}
-}
-
 // emitDecode prints the op line for the Lean specification decoder.
 func emitDecode(b *boundPkg, rootName string, stream []byte, expect string) (int, *parsedStream) {
 	eq, ps, err := equivalentOf(stream)
@@ -303,7 +288,6 @@ func RunC10(p *boundPkg, cases int) {
 	for i := 0; i < cases; i++ {
 		root := p.roots[i%len(p.roots)]
 		o, cfg, gp := drawCase(r, outBytes > opBudget)
-		avoidDictReencode(root, &o, cfg)
 		name := fmt.Sprintf("%s-rt-%d", p.ID, i)
 		note("case %s", name)
 		o.stat()
